@@ -60,6 +60,6 @@ def main(tier):
             'two-link alias chains (whole / index / slice, literal, omitted and let-valued bounds) over registers of size 3-4 that '
             'the specification declares valid, gates on the last alias directly / via macro / let index / named qubit; four '
             'consumers replayed; non-trivial = distinct programs whose chain has two non-trivial links',
-            extra_stage=lambda rep, wd, rng: exec_stage(rep, wd, rng, tier, holder))
+            extra_stage=lambda rep, wd, rng: exec_stage(rep, wd, rng, tier, holder), variants=('edge',))
     finally:
         passes.ast_cfg = orig
